@@ -22,7 +22,7 @@ func init() {
 		Level: "model_checking",
 		Rule: "product of genesis states: each of the five keyed lists as every sequence of length <=3 over 4 entries {(k1,v1),(k1,v2),(k2,v1),(k3,v1)} (85 per list), one list at a time (quick) and every pair of lists (thorough), " +
 			"x optional scalars present/absent (2^3) x both pause flags (2^2) x roles empty/valid; duplicate key => Validate must reject; accepted by Validate and InitGenesis => export(init(g)) == g as multisets with documented defaults; " +
-			"plus BFS (depth 3 quick / 4 thorough, sharded) over one or two parameterisations of all 25 transaction types: in every reachable state init(export(s)) into an empty store must reproduce the raw module store key for key; " +
+			"plus BFS (depth 3 quick / 5 thorough, sharded) over one or two parameterisations of all 25 transaction types: in every reachable state init(export(s)) into an empty store must reproduce the raw module store key for key; " +
 			"distinct_nontrivial = distinct genesis shapes with a duplicate or accepted round trip + distinct reachable store shapes",
 		Assumptions: []string{"nil and empty byte strings, absent and zero amounts are identified when comparing", "a panic in InitGenesis counts as 'not accepted by initialisation'"},
 		Jobs:        c17Jobs,
@@ -53,7 +53,7 @@ func c17Jobs(tier string) []Job {
 	}
 	depth := 3
 	if tier == "thorough" {
-		depth = 4
+		depth = 5
 	}
 	for sh := 0; sh < c17Shards; sh++ {
 		sh := sh
